@@ -966,8 +966,26 @@ func genParseCases(run *vh.Run, r *rand.Rand, opts []option) {
 		decls := make([]string, len(regs))
 		for j, g := range regs {
 			decls[j] = flagDecl(g.name, g.kind == "bool")
-			vals := make([]string, 0, len(argVals[g.name]))
+			// every raw value that can reach this flag: its command-line values, the values of the
+			// environment entries whose upper-cased name is one of the flag's variable names (an
+			// over-approximation is harmless), and its property
+			cand := map[string]bool{}
 			for v := range argVals[g.name] {
+				cand[v] = true
+			}
+			for _, pfx := range usePfx {
+				want := strings.ToUpper(pfx + strings.ReplaceAll(g.name, ".", "_"))
+				for _, e := range environ {
+					if k := strings.Index(e, "="); k >= 0 && strings.ToUpper(e[:k]) == want {
+						cand[e[k+1:]] = true
+					}
+				}
+			}
+			if v, ok := props[g.name]; ok {
+				cand[v] = true
+			}
+			vals := make([]string, 0, len(cand))
+			for v := range cand {
 				vals = append(vals, v)
 			}
 			sort.Strings(vals)
